@@ -151,7 +151,6 @@ func runWorker(spec *Spec, ph *Phase, tier string, seed uint64, from, to int, jo
 	if race {
 		budget *= 8
 	}
-	const stallWall = 45 * time.Second
 	go func() { // watchdog: decides on consumed CPU time, not wall clock
 		for {
 			time.Sleep(100 * time.Millisecond)
@@ -168,23 +167,21 @@ func runWorker(spec *Spec, ph *Phase, tier string, seed uint64, from, to int, jo
 					w.jf.Sync()
 					os.Exit(93)
 				}
-				// progress is measured per 5 s window; the watchdog's own polling costs
-				// a few ms per window and must not count as progress
-				if time.Since(w.winStart) >= 5*time.Second {
-					if c-w.lastCPU > 100*time.Millisecond {
-						w.lastMove = time.Now()
-					}
+				// progress = CPU accumulated since the last time progress was noted; the
+				// watchdog's own polling costs ≈50 ms per 45 s and must not count, a starved
+				// but healthy case on an overloaded machine (a few % of a core) must
+				if c-w.lastCPU > 250*time.Millisecond {
 					w.lastCPU = c
-					w.winStart = time.Now()
+					w.lastMove = time.Now()
 				}
-				if time.Since(w.lastMove) > stallWall {
+				if time.Since(w.lastMove) > stallLimit() {
 					stack := allStacks()
 					r := Result{Sig: "stalled"}
 					if ph.StallViolation {
 						r.Violate("stalled", caseFrame(stack), fmt.Sprintf("phase %s case %d", ph.Name, i),
-							fmt.Sprintf("case made no CPU progress for %s (all goroutines blocked)\n%s", stallWall, stack), nil)
+							fmt.Sprintf("case made no CPU progress for %s (all goroutines blocked)\n%s", stallLimit(), stack), nil)
 					} else {
-						r.Inconclusive = "stalled: no CPU progress for " + stallWall.String()
+						r.Inconclusive = "stalled: no CPU progress for " + stallLimit().String()
 					}
 					w.write(jline{T: "E", I: i, R: &r})
 					w.jf.Sync()
@@ -270,4 +267,25 @@ func stripArgs(f string) string {
 		}
 	}
 	return f
+}
+
+// stallLimit is how long a case may go without CPU progress before it is declared
+// stalled: 45 s, stretched when the machine is overloaded (1-minute load average above
+// twice the number of CPUs), up to 8x.
+func stallLimit() time.Duration {
+	base := 45 * time.Second
+	b, err := os.ReadFile("/proc/loadavg")
+	if err != nil {
+		return base
+	}
+	var l1 float64
+	fmt.Sscanf(string(b), "%f", &l1)
+	f := l1 / float64(2*runtime.NumCPU())
+	if f < 1 {
+		f = 1
+	}
+	if f > 8 {
+		f = 8
+	}
+	return time.Duration(float64(base) * f)
 }
